@@ -227,6 +227,12 @@ def jobs(tier, seed):
     for ans in ('s500', 'close', 'r301same', 's401', 'r307prev', 'r303noloc'):
         js.append(dict(params=dict(max_redirect=2, tries=3, depth=0, always=ans, robots=True),
                        prefix=[]))
+    # more failing attempts than the per-host connection limit (6): a fetch that fails must
+    # hand its connection back, or the crawl stalls instead of giving up
+    for ans in ('close', 's500', 'r301same', 'r308badloc'):
+        js.append(dict(params=dict(max_redirect=2, tries=9, depth=0, always=ans, robots=True),
+                       prefix=[]))
+        js.append(dict(params=dict(max_redirect=2, tries=9, depth=0, always=ans), prefix=[]))
     js.append(dict(params=dict(max_redirect=1, tries=2, depth=4 if tier == 'quick' else 6,
                                robots=True,
                                menu=['ok200', 'r301same', 'r302fresh', 's500', 's401', 'close']),
